@@ -63,3 +63,35 @@ ROBOTS["tree"] = {
             + '</robot>',
     "joints": {"jl": [0.0, -0.55, -1.5707963267948966], "jr": [0.0, 0.55, 1.5707963267948966], "jlh": [0.0, 1.0], "jrh": [0.0, -1.0]},
 }
+
+
+# gripper: link names that are prefixes of each other (gripper, gripper_left, gripper_right), child links declared BEFORE their
+# parent, two children on one link (asymmetric generated whitelists), fingers that collide with the palm and with each other,
+# mounted far from the origin on a rotated base (base_frame2origin != identity) with a 4 mm prismatic jog
+ROBOTS["hand"] = {
+    "urdf": '<?xml version="1.0"?><robot name="hand">'
+            + _link("gripper_left", [("0 0 0.15", "0 0 0", BOX % "0.06 0.06 0.3")])
+            + _link("gripper_right", [("0 0 0.15", "0 0 0", BOX % "0.06 0.06 0.3")])
+            + _link("gripper", [("0 0 0", "0 0 0", BOX % "0.3 0.4 0.1")])
+            + _link("wrist", [("0 0 -0.15", "0 0 0", CYL % (0.05, 0.2))])
+            + _joint("gw", "revolute", "wrist", "gripper", "0 0 0", "0 0 1")
+            + _joint("gr", "prismatic", "gripper", "gripper_right", "0 -0.12 0.06", "0 0.7071067811865476 -0.7071067811865476", lim=(-0.5, 0.5))
+            + _joint("gl", "revolute", "gripper", "gripper_left", "0 0.12 0.06", "1 0 0")
+            + '</robot>',
+    "joints": {"gw": [0.0, 0.8], "gl": [0.0, 1.45], "gr": [0.0, 0.1, 0.004]},
+    "base": (25, (800.0, 500.0, 300.0)),
+    "extras": False,
+    "parents": {"gripper": "wrist", "gripper_left": "gripper", "gripper_right": "gripper"},
+}
+ROBOTS["chain3"]["parents"] = {"l1": "base", "l2": "l1", "l3": "l2"}
+ROBOTS["chain4"]["parents"] = {"a": "base", "b": "a", "c": "b", "d": "c"}
+ROBOTS["tree"]["parents"] = {"left": "torso", "right": "torso", "lhand": "left", "rhand": "right"}
+
+
+# thorough tier: finer joint lattices (the quick values plus intermediate / limit positions)
+ROBOTS["chain3"]["joints_thorough"] = {"j1": [0.0, 1.1, -2.0, 3.0, -0.6], "j2": [0.0, 1.4, -1.4, 0.7, -2.6], "j3": [0.0, 2.8, -2.8, 1.57, -1.57]}
+ROBOTS["chain4"]["joints_thorough"] = {"ja": [0.0, 1.5707963267948966, -0.8, 3.0], "jb": [0.0, 1.2, 1.5707963267948966, -1.0, 2.4],
+                                       "jc": [0.0, -0.2, 0.4, -0.45, 0.2], "jd": [0.0, -0.12, 0.3, -0.3, 0.45]}
+ROBOTS["tree"]["joints_thorough"] = {"jl": [0.0, -0.55, -1.5707963267948966, -1.1, 0.4], "jr": [0.0, 0.55, 1.5707963267948966, 1.1, -0.4],
+                                     "jlh": [0.0, 1.0, -1.0, 2.2], "jrh": [0.0, -1.0, 1.0, -2.2]}
+ROBOTS["hand"]["joints_thorough"] = {"gw": [0.0, 0.8, -1.6, 2.0], "gl": [0.0, 1.45, 0.7, -0.5, 1.2], "gr": [0.0, 0.1, 0.004, -0.05, 0.2, 0.104]}
